@@ -117,7 +117,7 @@ CLAIMED = {
             "DESIGN.md 4/C13"),
     "C12": ("property-based testing (Hypothesis): generated well-conditioned TT systems (SPD / Laplacian / diagonally dominant) x solver options x seeds vs. dense residual bound",
             "Generated search over system class x order x modes x ranks x eps x preconditioner x local solver path x "
-            "initial guess x internal seed; oracle = dense residual ||Ax-b|| <= 5 eps ||b|| computed by the checker.",
+            "initial guess x internal seed x dtype (float64 / complex128) x trunc_norm x band_diagonal x operand scale (10^+-250); oracle = dense residual ||Ax-b|| <= 5 eps ||b|| computed by the checker.",
             "Trusted: checker's dense A and b. 'All seeds' is sampled; Python backend only.",
             "DESIGN.md 4/C12"),
     "C11": ("property-based testing (Hypothesis): generated compatible operand pairs, spectra, eps, internal seeds and initial guesses vs. dense product with 3*eps bound",
